@@ -358,13 +358,15 @@ type world struct {
 	udpStarting *run
 	strayUDP    int
 
-	stored   map[string]*storedInfo
-	lastObs  *obsT
-	hist     []vio.Step
-	acts     []json.RawMessage
-	capacity int
-	nlook    int
-	aborted  bool
+	stored    map[string]*storedInfo
+	lastObs   *obsT
+	hist      []vio.Step
+	acts      []json.RawMessage
+	capacity  int
+	nlook     int
+	aborted   bool
+	violated  bool
+	projDrift bool // the cache content has left the model (noted once)
 }
 
 func (w *world) notify() {
